@@ -233,13 +233,13 @@ func (w *Worker) diagnoseHang(c Case) Result {
 	g1 := GripGoroutines(ParseDump(d1))
 	g2 := GripGoroutines(ParseDump(d2))
 	fmt.Fprintf(os.Stderr, "#### HANG DIAGNOSIS case %d\n%s\n", c.ID, d2)
-	self := "verifharness/fw.(*Worker)."
 	filter := func(gs []Goroutine) []Goroutine {
 		var out []Goroutine
 		for _, g := range gs {
 			skip := false
 			for _, f := range g.Frames {
-				if strings.HasPrefix(f, self) {
+				// the watchdog's own goroutine, not the one executing the case
+				if strings.HasSuffix(f, "fw.(*Worker).diagnoseHang") {
 					skip = true
 				}
 			}
